@@ -62,52 +62,13 @@ impl Source {
     { unimplemented!() }
 }
 
-// R4: error type projection — variants constructed by extracted functions; payloads kept where modelled.
-use std::num::TryFromIntError;
-#[allow(inconsistent_fields)]
-pub enum Details {
-    WriteBytes(IoError),
-    FlushWriter(IoError),
-    WriteMarker(IoError),
-    ConvertUsizeToI64(TryFromIntError, usize),
-    FileHeaderAlreadyWritten,
-    Compress,        // projection of the codec-specific compression error variants
-    Decompress,      // projection of the codec-specific decompression error variants
-    HeaderBuild,     // projection of ConvertJsonToString and friends (Writer::header)
-    IntegerOverflow,
-    ReadVariableIntegerBytes(IoError),
-    ZagI32(TryFromIntError, i64),
-    ConvertI64ToUsize(TryFromIntError, i64),
-    ConvertI32ToUsize(TryFromIntError, i32),
-    MemoryAllocation { desired: Option<usize>, maximum: usize },
-    BoolValue(u8),
-    ReadBoolean(IoError),
-    ReadBytes(IoError),
-    ReadString(IoError),
-    ReadDouble(IoError),
-    ReadFloat(IoError),
-    ReadDuration(IoError),
-    ReadFixed(IoError, usize),
-    ConvertToUtf8(Utf8Error),
-    CompareFixedSizes { size: usize, n: usize },
-    GetEnumValue { index: usize, nsymbols: usize },
-    GetEnumUnknownIndexValue,
-    GetUnionVariant { index: i64, num_variants: usize },
-    ReadHeader(IoError),
-    HeaderMagic,
-    ReadMarker(IoError),
-    GetBlockMarker,
-    ReadBlockMarker(IoError),
-    ReadIntoBuf(IoError),
-    SignExtend { requested: usize, needed: usize },
-    IllegalSingleObjectWriterState,
-    Validation,
-    EncodeValueAsSchemaError { value_kind: ValueKind, supported_schema: Vec<SchemaKind> },
-    EncodeDecimalAsFixedError(usize, usize),
-    ConvertFixedToUuid(usize),
-    Other,
-}
-pub struct Utf8Error { pub u: () }
+// R4: error type projection — generated on every run from avro/src/error.rs (all variants, payload types mapped)
+#[verifier::external_body] pub struct ExtErr { x: u8 }
+#[verifier::external_type_specification] #[verifier::external_body] pub struct ExFromUtf8Error(std::string::FromUtf8Error);
+#[verifier::external_type_specification] #[verifier::external_body] pub struct ExUtf8Error(std::str::Utf8Error);
+//@details
+//@include prelude_limit.rs
+//@include prelude_value.rs
 pub enum ValueKind { Null, Boolean, Int, Long, Float, Double, Bytes, String, Fixed, Enum, Union, Array, Map, Record, Date, Decimal, BigDecimal, TimeMillis, TimeMicros, TimestampMillis, TimestampMicros, TimestampNanos, LocalTimestampMillis, LocalTimestampMicros, LocalTimestampNanos, Duration, Uuid }
 pub enum SchemaKind { Null, Boolean, Int, Long, Float, Double, Bytes, String, Array, Map, Union, Record, Enum, Fixed, Decimal, BigDecimal, Uuid, Date, TimeMillis, TimeMicros, TimestampMillis, TimestampMicros, TimestampNanos, LocalTimestampMillis, LocalTimestampMicros, LocalTimestampNanos, Duration, Ref }
 pub struct Error { pub details: Box<Details> }
